@@ -1,6 +1,6 @@
 """C13: the request put on the wire matches the connection's protocol (level: other)."""
 import re
-from core import (norm, L_call, L_variant, arms, assigns_to_return, closure_arg_of, sig, const_of, layer_stack, split_type_args, CallSite, AbsPaths, INT_CMP)
+from core import (norm, L_call, L_variant, arms, assigns_to_return, closure_arg_of, sig, const_of, layer_stack, split_type_args, CallSite, AbsPaths, INT_CMP, VALUE_EQ)
 from mir import op_place
 
 META = {
@@ -375,82 +375,161 @@ def C13_4(ctx, facts):
 
 
 def C13_5(ctx, facts):
-    sr = facts.unit(facts.method("client::conn::connection::HttpConnection", "Connection", "send_request"))
-    vr = facts.unit(facts.method("client::conn::connection::HttpConnection", "Connection", "version"))
+    """Decision table over the connection's variant (abstract evaluation of `send_request` / `version`, helpers spliced in): the
+    request handed to hyper's sender carries the version of that sender's protocol, and goes to the matching sender.  The
+    request's version is a cell in the abstract state: `*request.version_mut() = v` writes it, the hand-over reads it."""
+    import inline
+    sr0 = facts.method("client::conn::connection::HttpConnection", "Connection", "send_request")
+    vr0 = facts.method("client::conn::connection::HttpConnection", "Connection", "version")
+    SEND = r"hyper::client::conn::http[12]::SendRequest.*::(send_request|try_send_request)$"
+    keep = lambda ck, raw: "::_::" not in ck
+    sr = inline.inline(facts, sr0, 4, keep, expand=True)
+    vr = inline.inline(facts, vr0, 4, keep, expand=True)
     ctx.touched(sr)
     ctx.touched(vr)
-    _, a_s = arms(sr, "InnerConnection")
-    _, a_v = arms(vr, "InnerConnection")
-    if set(a_s) != {"H1", "H2"} or set(a_v) != {"H1", "H2"}:
-        return ctx.undecided("HttpConnection|arms", "arms not recognised: %s %s" % (sorted(a_s), sorted(a_v)))
+    adt = facts.adt("client::conn::connection::HttpConnection")
+    idx = [i for i, fl in enumerate(adt["variants"][0]["fields"]) if "InnerConnection<" in fl["ty"]]
+    if len(idx) != 1:
+        return ctx.missing("HttpConnection|inner", "HttpConnection has no single field of type InnerConnection")
+    CELL, LOG = -50, -51
+
+    def o_version_mut(ev, st, t, site):
+        d = t["dest"]
+        st[d["l"]] = ("cellref", CELL)
+        return True
+
+    def o_version_get(ev, st, t, site):
+        d = t["dest"]
+        v = st.get(CELL)
+        if v is None:
+            st.pop(d["l"], None)
+        else:
+            st[d["l"]] = v
+        return True
+
+    def o_send(ev, st, t, site):
+        recv = ev._eval_operand(st, site.args[0]) if site.args else None
+        hops = 0
+        while recv is not None and recv[0] in ("ref", "refmut", "refval") and hops < 6:
+            recv = st.get(recv[1]) if recv[0] != "refval" else recv[1]
+            hops += 1
+        l = st.get(LOG) or ("list", ())
+        st[LOG] = ("list", l[1] + (("variant", "sent", ((0, recv), (1, st.get(CELL)), (2, ("const", "http2" if "http2" in norm(site.name) else "http1")))),))
+        st.pop(t["dest"]["l"], None)
+        return True
+    raw = [(r"http::request::Request.*::version_mut$|http::Request.*::version_mut$", o_version_mut),
+           (r"http::request::Request.*::version$|http::Request.*::version$", o_version_get), (SEND, o_send)]
+    n_send = len([c for c in sr.calls() if re.search(SEND, norm(c.name))])
+    ctx.floor("HttpConnection::send_request|send-sites", n_send, 2, "hand-overs to hyper's senders")
     for v, const, mod in (("H1", "Version::HTTP_11", "http1"), ("H2", "Version::HTTP_2", "http2")):
-        rets = [const_of(s["r"]["o"]) for (k, b, s) in assigns_to_return(vr, a_v[v]) if k == "stmt" and s["r"]["k"] == "use"]
-        ctx.check(len(rets) == 1 and str(rets[0]).endswith(const), "HttpConnection::version|%s" % v, "version() reports %s for %s" % (const, v), "version() reports %s for %s" % (rets, v), vr.where())
-        sends = [c for c in sr.calls() if c.bb in a_s[v] and norm(c.name).endswith("SendRequest::send_request")]
-        # the version the request carries when it reaches this sender: a store through version_mut() that every path to the
-        # send passes - the matching constant, or the connection's own version() (whose per-variant answer is checked above)
-        written = []
-        for b in sorted(sr.live):
-            for s in sr.stmts(b):
-                if s["k"] == "assign" and s["p"]["p"] == ["*"] and s["r"]["k"] == "use":
-                    site = sr.call_defining(s["p"]["l"])
-                    if site is None or not site.matches(r"version_mut$"):
-                        continue
-                    if not all(sr.must_pass(0, [c.bb], {b})[0] for c in sends):
-                        continue
-                    if b not in a_s[v] and any(b in a_s[o] for o in a_s if o != v):
-                        continue
-                    cv = const_of(s["r"]["o"])
-                    if cv:
-                        written.append(str(cv))
-                    elif any(r.kind == "call" and r.site.matches(r"Connection.*::version$|HttpConnection.*::version$") and
-                             any(x.kind == "arg" and x.index == 1 for x in sr.roots(r.site.args[0])) for r in sr.roots(s["r"]["o"])):
-                        written.append("self.version() = " + const)
-        ctx.check(len(written) >= 1 and all(w.endswith(const) for w in written), "HttpConnection::send_request|%s-version" % v, "a request sent on the %s sender is stamped with %s" % (v, const),
-                  "the request reaching the %s sender is stamped %s" % (v, written), sr.where())
-        ctx.check(len(sends) == 1 and mod in norm(sends[0].name), "HttpConnection::send_request|%s-sender" % v, "and sends it on the %s sender" % mod, "the %s arm sends via %s" % (v, [norm(c.name) for c in sends]), sr.where())
+        this = ("variant", "HttpConnection", ((idx[0], ("variant", v, ((0, ("const", "SENDER_" + v)),))),))
+        try:
+            o_v = {x for (x, _) in AbsPaths(vr).outcomes(state={1: ("refval", this)})}
+        except AbsPaths.Undecided as e:
+            o_v = None
+            ctx.undecided("HttpConnection::version|%s" % v, str(e))
+        if o_v is not None:
+            ok = len(o_v) == 1 and next(iter(o_v)) is not None and next(iter(o_v))[0] == "const" and str(next(iter(o_v))[1]).endswith(const)
+            ctx.check(ok, "HttpConnection::version|%s" % v, "version() reports %s for %s" % (const, v), "version() reports %s for %s" % (sorted(map(str, o_v)), v), vr.where())
+        try:
+            outs = AbsPaths(sr, raw_oracles=raw).outcomes(state={1: ("refmut", 9000), 9000: this, 2: ("const", "REQUEST"), CELL: ("const", "VERSION_OF_CALLER"), LOG: ("list", ())}, extra_keys=(LOG,))
+        except AbsPaths.Undecided as e:
+            ctx.undecided("HttpConnection::send_request|%s" % v, str(e))
+            continue
+        logs = {o[2][0] for o in outs}
+        sent = []
+        for lg in logs:
+            sent.append(tuple((str((dict(e[2]).get(0) or ("", "?"))[1]), str((dict(e[2]).get(1) or ("", "?"))[1]), str(dict(e[2]).get(2)[1])) for e in lg[1]) if lg is not None else None)
+        ok = len(sent) == 1 and sent[0] is not None and len(sent[0]) == 1
+        okv = ok and sent[0][0][1].endswith(const)
+        oks = ok and sent[0][0][0] == "SENDER_" + v and sent[0][0][2] == mod
+        ctx.check(okv, "HttpConnection::send_request|%s-version" % v, "a request sent on the %s sender is stamped with %s" % (v, const),
+                  "the request reaching the %s sender is stamped %s (hand-overs: %s)" % (v, [s_[0][1] if s_ else "?" for s_ in sent], sent), sr.where())
+        ctx.check(oks, "HttpConnection::send_request|%s-sender" % v, "and is handed, exactly once, to this connection's %s sender" % mod,
+                  "the %s connection hands the request over as %s" % (v, sent), sr.where())
 
 
 def C13_6(ctx, facts):
-    # evaluated on the unit of the handshake body (a helper deciding the protocol is spliced in, its literal results threaded)
+    # decision table (abstract evaluation of the async body of `handshake`, helpers spliced in): configured protocol x what
+    # the transport says about ALPN -> which of the two handshakes runs.  How the decision is written (nested `if`, a helper
+    # returning the protocol to speak, a `match` on a tuple) does not matter.
+    import inline
+    tls = ctx.cur_config in ("tls", "mocks", "aws")
+    body = facts.fn("client::conn::protocol::auto::HttpConnectionBuilder::handshake::{closure#0}")
+    # `#[tracing::instrument]` wraps the body in an inner async block: evaluate the block the decision is made in
     homes = {c.fn.key for c in facts.call_sites_of("client::conn::protocol::auto::HttpConnectionBuilder::handshake_h2",
                                                    "client::conn::protocol::auto::HttpConnectionBuilder::handshake_h1")}
-    units = [facts.unit(facts.fns[k], expand=True) for k in sorted(homes)]
-    h2 = [c for u in units for c in u.calls("client::conn::protocol::auto::HttpConnectionBuilder::handshake_h2")]
-    h1 = [c for u in units for c in u.calls("client::conn::protocol::auto::HttpConnectionBuilder::handshake_h1")]
+    if len(homes) == 1 and norm(next(iter(homes))).startswith(body.nkey):
+        body = facts.fns[next(iter(homes))]
+    H = r"HttpConnectionBuilder::handshake_h[12]$"
+    u = inline.inline(facts, body, 4, lambda ck, raw: "::_::" not in ck and not re.search(H, norm(ck)) and not re.search(r"tls_info$", norm(ck)), expand=True)
+    ctx.touched(u)
+    h2 = {c.bb for c in u.calls("client::conn::protocol::auto::HttpConnectionBuilder::handshake_h2")}
+    h1 = {c.bb for c in u.calls("client::conn::protocol::auto::HttpConnectionBuilder::handshake_h1")}
     ctx.floor("handshake|h2-sites", len(h2), 1, "handshake_h2 call sites")
     ctx.floor("handshake|h1-sites", len(h1), 1, "handshake_h1 call sites")
-    tls = ctx.cur_config in ("tls", "mocks", "aws")
-    for c in h2 + h1:
-        f = c.fn
-        ctx.touched(f)
-        is2 = c in h2
-        v2 = lambda lab: lab.kind == "variant" and lab.variants == {"Http2"} and (lab.adt or "").endswith("protocol::HttpProtocol")
-        v1 = lambda lab: lab.kind == "variant" and lab.variants == {"Http1"} and (lab.adt or "").endswith("protocol::HttpProtocol")
+    info = facts.adt("info::tls::TlsConnectionInfo") if tls else None
+    ai = [i for i, fl in enumerate(info["variants"][0]["fields"]) if re.search(r"Option<.*Protocol>$", fl["ty"])] if info else []
+    if tls and len(ai) != 1:
+        return ctx.missing("handshake|alpn-field", "TlsConnectionInfo has no single Option<Protocol> field")
+    caps = {n: facts._capture_index(body, "cap:" + n) for n in ("self", "transport", "protocol")}
+    if caps["protocol"] is None:
+        return ctx.missing("handshake|protocol-capture", "the async body of handshake does not capture `protocol`")
+    alpns = [("no-tls", None), ("tls-no-alpn", ("variant", "None", ())), ("alpn-http/1.1", ("variant", "Some", ((0, ("variant", "Http", ((0, ("const", "ALPN_H1")),))),))),
+             ("alpn-h2", ("variant", "Some", ((0, ("variant", "Http", ((0, ("const", "ALPN_H2")),))),)))] if tls else [("no-tls", None)]
 
-        def alpn(val):
-            def pred(lab):
-                if lab.kind != "bool" or lab.value is not val or lab.cond.kind != "call":
-                    return False
-                s = lab.cond.site
-                if norm(s.name).split("::")[-1] != "eq":
-                    return False
-                rr = f.roots(s.args[0]) | f.roots(s.args[1])
-                return any(r.kind == "call" and r.site.matches(r"tls_info$") for r in rr) and \
-                    any(r.kind == "const" and str(r.desc).endswith(H2) for r in rr) or any(r.kind == "const" and "promoted" in str(r.desc) for r in rr) and any(r.kind == "call" and r.site.matches(r"tls_info$") for r in rr)
-            return pred
-        if is2:
-            on2 = f.guarded(c.bb, v2)[0]
-            on1_alpn = f.guarded(c.bb, v1)[0] and f.guarded(c.bb, alpn(True))[0]
-            ctx.check(on2 or (tls and on1_alpn), "handshake|h2-when|%s" % ("Http2" if on2 else "alpn"),
-                      "an HTTP/2 handshake happens for protocol == Http2%s" % (" or (Http1 and ALPN negotiated h2)" if tls else ""),
-                      "handshake_h2 reachable outside (Http2 | Http1 + ALPN h2)", c.where())
-        else:
-            ok = f.guarded(c.bb, v1)[0] and (not tls or f.guarded(c.bb, alpn(False))[0])
-            ctx.check(ok, "handshake|h1-when", "an HTTP/1 handshake happens only for protocol == Http1%s" % (" without ALPN h2" if tls else ""),
-                      "handshake_h1 reachable for Http2 or despite ALPN h2", c.where())
+    def has(v, tag, depth=8):
+        if v is None or depth == 0:
+            return False
+        if v[0] == "const":
+            return v[1] == tag
+        if v[0] == "refval":
+            return has(v[1], tag, depth - 1)
+        if v[0] == "variant":
+            return any(has(x, tag, depth - 1) for _, x in v[2])
+        return False
+    for proto in ("Http1", "Http2"):
+        for (aname, alpn) in alpns:
+            key = "handshake|table|%s|%s" % (proto, aname)
+
+            def tls_info(site, vals, alpn=alpn):
+                if alpn is None:
+                    return ("variant", "None", ())
+                return ("variant", "Some", ((0, ("refval", ("variant", "TlsConnectionInfo", ((ai[0], alpn),)))),))
+
+            def alpn_eq(site, vals):
+                # the comparison of the negotiated protocol with the HTTP/2 constant (the constant side is checked below)
+                if any(has(v, "ALPN_H2") for v in vals):
+                    return ("const", "false" if norm(site.name).endswith("::ne") else "true")
+                if any(has(v, "ALPN_H1") for v in vals) or any(v is not None and v[0] == "variant" and v[1] == "None" for v in vals):
+                    return ("const", "true" if norm(site.name).endswith("::ne") else "false")
+                return None
+            env = ("variant", "{coroutine}", tuple(sorted((i, ("const", "CAP_" + n) if n != "protocol" else ("variant", proto, ())) for n, i in caps.items() if i is not None)))
+            try:
+                outs = AbsPaths(u, oracles=[(r"tls_info$", tls_info), (r"PartialEq.*::(eq|ne)$", alpn_eq), VALUE_EQ,
+                                            (r"Option.*::as_ref$", lambda site, vals: vals[0] if vals and vals[0] is not None and vals[0][0] == "variant" and vals[0][1] == "None" else
+                                             (("variant", "Some", ((0, ("refval", dict(vals[0][2]).get(0))),)) if vals and vals[0] is not None and vals[0][0] == "variant" and vals[0][1] == "Some" else None))]
+                                ).outcomes(state={1: env}, stop_blocks=h1 | h2)
+            except AbsPaths.Undecided as e:
+                ctx.undecided(key, str(e))
+                continue
+            got = set()
+            for (v, _) in outs:
+                m = re.match(r"stopped@bb(\d+)$", str(v[1])) if v is not None and v[0] == "const" else None
+                got.add("h2" if m and int(m.group(1)) in h2 else ("h1" if m and int(m.group(1)) in h1 else "neither"))
+            want = "h2" if proto == "Http2" or aname == "alpn-h2" else "h1"
+            ctx.check(got == {want}, key, "protocol %s, transport %s: the %s handshake runs" % (proto, aname, "HTTP/2" if want == "h2" else "HTTP/1"),
+                      "protocol %s, transport %s: %s runs, expected the %s handshake" % (proto, aname, sorted(got), "HTTP/2" if want == "h2" else "HTTP/1"), u.where())
     if tls:
-        ctx.check(len(h2) >= 2, "handshake|alpn-upgrade-present", "the ALPN upgrade path exists (two handshake_h2 sites)", "no ALPN upgrade path")
+        # the constant the negotiated protocol is compared with is HTTP/2
+        eqs = [c for c in u.calls() if c.matches(r"PartialEq.*::(eq|ne)$") and any(r.kind == "call" and r.site.matches(r"tls_info$") for a_ in c.args for r in u.roots(a_))]
+        ctx.floor("handshake|alpn-comparison", len(eqs), 1, "comparison of the negotiated ALPN protocol")
+        for c in eqs:
+            rr = set()
+            for a_ in c.args:
+                rr |= u.roots(a_)
+            ok = any(r.kind == "const" and (str(r.desc).endswith(H2) or "promoted" in str(r.desc)) for r in rr)
+            ctx.check(ok, "handshake|alpn-compared-with-h2", "the negotiated protocol is compared with the HTTP/2 constant", "ALPN comparison roots %s" % sorted(map(repr, sig(rr))), c.where())
     # the two handshakes build the matching connection kind
     for nm, ctor, mod in (("handshake_h2", "HttpConnection::h2", "http2"), ("handshake_h1", "HttpConnection::h1", "http1")):
         bodies = [g for g in facts.fns.values() if g.nkey.startswith("client::conn::protocol::auto::HttpConnectionBuilder::%s" % nm)]
